@@ -96,9 +96,9 @@ class Group:
     def add_pack(self, c, value):
         self.ops.append(dict(cls=decl.cname(c), op='pack', value=jvalue(value), _value=value, _c=c))
 
-    def add_default(self, c, kw):
+    def add_default(self, c, kw, tag=None):
         v = ('pkt', c, kw)
-        self.ops.append(dict(cls=decl.cname(c), op='default', value=jvalue(v), _value=v, _c=c))
+        self.ops.append(dict(cls=decl.cname(c), op='default', value=jvalue(v), _value=v, _c=c, _tag=tag))
 
 
 def run_groups(groups, tag='g'):
@@ -171,7 +171,7 @@ def run_groups(groups, tag='g'):
                     records.append(dict(group=g.gid, kind='pack', c=c, value=op['_value'], outcome=o))
                     lines.append(f"CPack {decl.cq_value(op['_value'])} {cq_outcome(o)}")
                 elif op['op'] == 'default':
-                    records.append(dict(group=g.gid, kind='default', c=c, value=op['_value'], outcome=o))
+                    records.append(dict(group=g.gid, kind='default', c=c, value=op['_value'], outcome=o, tag=op.get('_tag')))
                     lines.append(f"CDefault {decl.cq_value(op['_value'])} {cq_outcome(o)}")
             if g.nomodel:
                 continue
